@@ -275,8 +275,9 @@ class Kernel:
         I.ctx.oblige("no-exception", False, kind="post-exceptional", note="unexpected exception %r" % (exc,))
 
     def local(self, I, name):
-        """current value of the innermost / most recently declared local called `name` (for invariants)"""
-        f = I.ctx.frame
+        """current value of the innermost / most recently declared local called `name` (for invariants;
+        in postconditions: the kernel function's own frame as it was at exit)"""
+        f = I.ctx.frame if I.ctx.frames else I.ctx.last_frame
         while f is not None:
             for did, b in reversed(list(f.vars.items())):
                 if isinstance(b, Loc) and b.key[0] == "L" and b.key[-1] == name:
@@ -286,7 +287,7 @@ class Kernel:
 
     def local_obj(self, I, name):
         """the object bound to the most recently declared local called `name`"""
-        f = I.ctx.frame
+        f = I.ctx.frame if I.ctx.frames else I.ctx.last_frame
         while f is not None:
             for did, b in reversed(list(f.vars.items())):
                 if not isinstance(b, Loc) and getattr(b, "decl_name", None) == name:
